@@ -71,8 +71,19 @@ CLAIMED["C06"] = ("guard rule on net.CIDRMask call sites in the decode closure (
          "and the v4 option encoder writes every stored key including empty values. The fixpoint itself for all inputs is not decided; hence 'other'.", E2NOTE, "§5 C06")
 CLAIMED["C09"] = ("amplification-site audit on SSA loops of the decode closure (cursor monotonicity, typestate flag of cursor jumps, capped accumulators), loop-placement rules for remainder copies and accumulator-sized allocations, repeated-ToBytes rule in encoders",
          "Decides four structural necessary conditions of bounded decoding cost (see DESIGN §5 C09). The numeric bound itself (bytes allocated per input byte) is a runtime quantity and is NOT decided; this is stated in the evidence. Hence 'other'.", "", "§5 C09")
-CLAIMED["C17"] = ("wire-schema extraction of the DHCPv4 option value types compared with reviewed RFC rows; accessor table and fallback rules",
-         "Decides codec symmetry and RFC layout of each DHCPv4 value type (IP, IPs, mask, duration, uint16, message type, strings, routes, VIVC, archs, …). Accessor fallback discipline: see evidence for the clauses implemented. Hence 'other'.", E2NOTE, "§5 C17")
+CLAIMED["C17"] = ("table cross-check accessor ↔ constructor ↔ printer (SSA), error-edge provenance rule for fallbacks, tiling rule for value decoders, wire-schema rows of the DHCPv4 value types",
+         "Decides: for each option code the typed accessor, the Opt* constructor and the printer use the same value type (listed exceptions 54, 77); on the absent and on the decode-error edge the accessor returns a value not derived from the decode target; each value type's FromBytes consumes its input exactly; codec symmetry and RFC layout of each value type. "
+         "Does not decide value semantics beyond slot/field/transform agreement; hence 'other'.", E2NOTE, "§5 C17")
+
+CLAIMED["C04"] = ("dominance / must-pass-through rules and value provenance on dhcpv4.FromBytes and the option loop (SSA), schema row of the header decoder",
+         "Decides, in the direction 'accepts no more than': success requires the Lexer error test after the last header read, the magic cookie and a nil option-parse error; pad skips without a length, End leaves the loop before a length is read, an overrunning value is an error, success after the loop requires End (checkEnd=true is passed), hlen is clamped to 16, nothing is read after End, instances concatenate in order. "
+         "Does not decide that every well-formed packet is accepted; hence 'other'.", "", "§5 C04")
+CLAIMED["C05"] = ("return-classification rule (exact tiling) over every DHCPv6/iana/label decoder, shape rules on the TLV loop and header decoders, error-use rule over the decode closure, schema rows of the decoders",
+         "Decides, in the direction 'accepts no more than': every decoder returns nil only via FinError over its whole input, an exact length guard, wholesale use, or delegation of the whole input/remainder to a decoder judged by the same rule with its error propagated; the TLV loop shape; header completeness guards and the 12/13 dispatch; no decode error is dropped; decoded field values per the reviewed RFC rows. "
+         "Does not decide the converse; hence 'other'.", E2NOTE, "§5 C05")
+CLAIMED["C19"] = ("CFG/value rules on (*Labels).ToBytes and same(), shape rules on the label encoder and decoder (length prefix, terminator, pointer test, 14-bit offset)",
+         "Decides: the original bytes are re-emitted only if re-parsing failed or an exact element-wise comparison of names holds, otherwise the current names are encoded; encoder and decoder agree on the length-prefix/terminator framing; the compression-pointer offset is the widened 14-bit big-endian value; decoding starts at offset 0. "
+         "Does NOT decide which names RFC 1035/4704 assign to an arbitrary byte string; hence 'other'.", "", "§5 C19")
 
 NA_REASON = {}
 
